@@ -130,6 +130,18 @@ func ZZ_C15_Resolve() {
 					re += w + parts[k+1]
 				}
 				zz.Assert(re == req, "MATCH-holds-the-matched-substrings")
+				if nstars == 2 && re == req {
+					// where the request can be split in several ways, the reference is the
+					// matcher's own rule for '*': as much as possible, leftmost first
+					// (the first star took the most iff the middle literal does not occur
+					// again further right)
+					greedy := ws[1] == ""
+					if parts[1] != "" {
+						tail := parts[1] + ws[1]
+						greedy = !strings.Contains(tail[1:], parts[1])
+					}
+					zz.Assert(greedy, "MATCH-each-star-takes-as-much-as-possible-leftmost-first")
+				}
 			}
 		}
 	case kind == "alias" && nalias > 1:
